@@ -116,3 +116,13 @@ def length(s):
     if isinstance(s, z3.SeqRef):
         return z3.Length(s)
     return len(s)
+
+
+def seqterm(world, v, elem):
+    """z3 Seq term of a list/tuple value (PyList / tuple / SeqV) with element type `elem`"""
+    from .engine import SeqT
+    if isinstance(v, SeqV):
+        return v.term
+    if isinstance(v, z3.SeqRef):
+        return v
+    return world.box(v, SeqT(elem))
